@@ -170,7 +170,7 @@ func (a hiveL) Walk(cap int) ([]int, bool) {
 	vs := a.l.Values()
 	n := 0
 	a.l.Range(func(int) { n++ })
-	if fmt.Sprint(vs) != fmt.Sprint(out) || n != len(out) || vs == nil {
+	if fmt.Sprint(vs) != fmt.Sprint(out) || n != len(out) {
 		return append(out, -999999), false // Values()/Range disagree with ForEach: shows up as a difference
 	}
 	// the slice Values() returns belongs to the caller: scribbling over it changes neither the list nor what the
@@ -183,6 +183,11 @@ func (a hiveL) Walk(cap int) ([]int, bool) {
 	}
 	if vs2 := a.l.Values(); fmt.Sprint(vs2) != fmt.Sprint(out) {
 		return append(out, -888888), false
+	}
+	for i := range vs {
+		if vs[i] != -555555 {
+			return append(out, -888887), false // a later Values() call wrote into the slice an earlier one returned
+		}
 	}
 
 	return out, false
